@@ -1349,6 +1349,10 @@ func main() {
 	mats := []*rsaMat{newRSA(2048), newRSA(3072)}
 	h.derCodec()
 	h.ecdsaAll()
+	{ // shortrs.go: genuine signatures with a short s (keys derived from the signature); own stream, the other sections keep their inputs
+		h2 := &harness{o: o, rng: hlib.NewRng(seed, "c03-shortrs")}
+		h2.ecShortRS()
+	}
 	h.ed25519All()
 	h.rsaAll(mats)
 	odd := h.rsaSizes() // rsasizes.go: moduli whose bit length is not a multiple of 8
